@@ -49,27 +49,27 @@ import (
 // or Commit/Rollback was called outside a transaction.
 type Item struct {
 	K    string `json:"k"`
-	T    int    `json:"t"`
-	P    int    `json:"p"`
-	R    string `json:"r"`
-	Kind string `json:"kind"`
-	Dry  bool   `json:"dry"`
-	W    int    `json:"w"`
-	Tag  int    `json:"tag"`
+	T    int    `json:"t,omitempty"`
+	P    int    `json:"p,omitempty"`
+	R    string `json:"r,omitempty"`
+	Kind string `json:"kind,omitempty"`
+	Dry  bool   `json:"dry,omitempty"`
+	W    int    `json:"w,omitempty"`
+	Tag  int    `json:"tag,omitempty"`
 }
 
 // Faults scripted for the duration of one client operation: every matching
 // call of the fake fails while the flag is set.
 type Faults struct {
-	Begin    bool `json:"begin"`
-	Lock     bool `json:"lock"`
-	Commit   bool `json:"commit"`
-	Rollback bool `json:"rollback"`
+	Begin    bool `json:"begin,omitempty"`
+	Lock     bool `json:"lock,omitempty"`
+	Commit   bool `json:"commit,omitempty"`
+	Rollback bool `json:"rollback,omitempty"`
 	// SQL: 0 none, k = the statement with tag k fails.
-	SQL int `json:"sql"`
+	SQL int `json:"sql,omitempty"`
 	// Rows: RowsAffected of the state update (0 = someone else already flipped
 	// the ledger state).
-	Rows int `json:"rows"`
+	Rows int `json:"rows,omitempty"`
 }
 
 // Write kinds (the seven write methods of Controller).
